@@ -330,7 +330,8 @@ var jsonBodies = []string{
 	`{"characteristics":[{"aid":18446744073709551616,"iid":2,"value":true}]}`, `{"characteristics":[{"aid":2,"iid":%IID%,"value":1e400}]}`, `{"characteristics":[{"aid":2,"iid":%IID%,"value":[1,2]}]}`,
 	`{"characteristics":[{"aid":2,"iid":%IID%,"value":{"a":[1]}},{"aid":2,"iid":%IID%,"value":{"a":[1]}}]}`, `{"characteristics":[{"aid":2,"iid":%IID%,"ev":"yes"}]}`, `{"characteristics":[{"aid":2,"iid":%IID%,"ev":[true]}]}`,
 	`{"characteristics":[{"aid":2,"iid":%IID%,"ev":1}]}`, `{"characteristics":[{"aid":2,"iid":%IID%,"value":null,"ev":null}]}`, `{"characteristics":[{"aid":2,"iid":%IID%,"value":"x","value":2}]}`,
-	`{"characteristics":[{"aid":2,"iid":%IID%,"value":-1e308}]}`, `{"characteristics":[{"aid":2,"iid":%IID%,"value":"NaN"}]}`, `{"characteristics":[{"aid":2,"iid":%IID%,"value":{}}]}`,
+	`{"characteristics":[{"aid":2,"iid":%IID%,"value":-1e308}]}`, `{"characteristics":[{"aid":2,"iid":%IID%,"value":256}]}`, `{"characteristics":[{"aid":2,"iid":%IID%,"value":-1}]}`,
+	`{"characteristics":[{"aid":2,"iid":%IID%,"value":70000}]}`, `{"characteristics":[{"aid":2,"iid":%IID%,"value":1e30}]}`, `{"characteristics":[{"aid":2,"iid":%IID%,"value":255.5}]}`, `{"characteristics":[{"aid":2,"iid":%IID%,"value":4294967296}]}`, `{"characteristics":[{"aid":2,"iid":%IID%,"value":"NaN"}]}`, `{"characteristics":[{"aid":2,"iid":%IID%,"value":{}}]}`,
 	`{"resource-type":"image","image-width":-1,"image-height":1}`, `{"resource-type":"image","image-width":1e400}`, `{"resource-type":"image","image-width":"8","image-height":8}`, `{"resource-type":7}`,
 	`{"resource-type":"image","image-width":4294967296,"image-height":4294967296}`, `{"resource-type":"image","image-width":0,"image-height":0}`, `{"resource-type":"image"}`, `{"resource-type":"video"}`,
 }
@@ -338,7 +339,7 @@ var jsonBodies = []string{
 var queries = []string{"", "?id=", "?id=1", "?id=1.", "?id=.1", "?id=1.2.3", "?id=a.b", "?id=-1.-1", "?id=1.2,", "?id=,", "?id=99999999999999999999.1", "?id=1e3.2", "?id=2.%IID%,2.%IID%", "?id=2.%IID%&meta=1&perms=1&type=1&ev=1", "?id=%zz", "?id=2.%IID%;x", "?ID=1.1", "?id=1.1&id=2.2", "?id=0x1.0x2", "?id=+1.+2", "?id= 1.1"}
 
 func genHostile(t *rapid.T, e *env) hostile {
-	iids := []uint64{e.tb.Text.ID, e.tb.Blob.ID, e.tb.Bulb.Lightbulb.On.ID, e.tb.Bulb.Lightbulb.Brightness.ID, e.tb.RO.ID, e.tb.Secret.ID, 1, 999}
+	iids := []uint64{e.tb.Text.ID, e.tb.Blob.ID, e.tb.Bulb.Lightbulb.On.ID, e.tb.Bulb.Lightbulb.Brightness.ID, e.tb.RO.ID, e.tb.Secret.ID, e.tb.Remote.ID, e.tb.Remote.ID, e.tb.Volume.ID, 1, 999}
 	iid := fmt.Sprint(rapid.SampledFrom(iids).Draw(t, "iid"))
 	sub := func(s string) string { return strings.Replace(s, "%IID%", iid, -1) }
 	switch rapid.SampledFrom([]string{"pairing-mutated", "pairing-mutated", "pairing-mutated", "pairing-raw", "json", "json-deep", "query", "pairings", "method", "raw-anywhere"}).Draw(t, "hkind") {
@@ -479,7 +480,13 @@ func deliver(e *env, h hostile) error {
 	if e.dead {
 		return nil
 	}
-	r, err := e.tr.Do(h.Method, h.Path, h.CType, h.Body)
+	path := h.Path
+	if e.wire {
+		// the request line itself stays well-formed HTTP: the property is about bodies and parameters, and a
+		// raw space or control character in the request target is answered by net/http before any handler runs
+		path = strings.NewReplacer(" ", "%20", "\t", "%09", "\r", "%0D", "\n", "%0A", "\x00", "%00").Replace(path)
+	}
+	r, err := e.tr.Do(h.Method, path, h.CType, h.Body)
 	if err != nil {
 		if pe, ok := err.(*fixture.PanicError); ok {
 			return fmt.Errorf("handler panicked: %v", pe.Value)
